@@ -6,7 +6,7 @@
 
 using namespace vh;
 
-static long susc_ncases(const std::string& tier) { return tier == "thorough" ? 3000 : 160; }
+static long susc_ncases(const std::string& tier) { return tier == "thorough" ? 20000 : 160; }
 
 
 static void susc_run(Ctx& c) {
